@@ -20,6 +20,11 @@ CLAIMED = {
         note="Centre-finder accuracy is empirical (search only, within 1 px on computed Mie holograms); scipy.signal.detrend and xarray.interpolate_na are externals whose modelled closed forms are sampled; metadata carrying is search-only; reals not IEEE.",
         technique="Lean 4 theorems (field_simp/ring, induction over pushes, Finset sums) + differential correspondence + identity search incl. bounded-exhaustive crops",
         ref="DESIGN.md §5 C18"),
+    "C14": dict(
+        text="Proof (Lean 4): for the model of prior.py — Uniform: lnprob = log(prob) on the support of every proper prior, -inf exactly where prob = 0, density integrates to 1, default/accepted guess lies in the support, scale_factor > 0 so scale/unscale are inverse, senseless bounds and guesses rejected; Gaussian: exp(lnprob) is Mathlib's normalised gaussianPDFReal (hence integral 1) and lnprob = log(prob); BoundedGaussian: zero density / -inf outside the bounds; the rejection-sampling loop as repaired returns only in-support values for every draw stream and every size (induction on the loop), with a kernel-checked counterexample for the loop as previously written; operator algebra: for EVERY expression over priors and numbers (any depth) that Python builds, evaluating the built TransformedPrior tree at any values of the base priors (guesses or a sample set) equals the operation applied to those values, p+0 / 1*p / p-0 / p/1 are p itself, 0*p and unsupported operands raise. The improper-Uniform exception (-1/EPS vs prob 0) is a stated counterexample theorem and a known finding. Tied by correspondence (densities to 1e-11, trees exact, sampling loop exact on a scripted generator).",
+        note="'Samples follow the declared distribution' concerns NumPy's generator (KS test in the search only); NumPy-ufunc priors and ComplexPrior are search-only; scipy's norm.pdf is modelled by its closed form; reals, not IEEE.",
+        technique="Lean 4 theorems (Mathlib Gaussian measure, interval integral, structural induction over expressions and over the sampling loop) + differential correspondence + numeric/statistical search",
+        ref="DESIGN.md §5 C14"),
 }
 
 NOT_YET = {}
